@@ -307,9 +307,10 @@ class VariableElimination(Inference):
 
         # Step 2: If virtual_evidence is provided, modify the network.
         if isinstance(self.model, BayesianNetwork) and (virtual_evidence is not None):
+            orig_model = self.model
             self._virtual_evidence(virtual_evidence)
             virt_evidence = {"__" + cpd.variables[0]: 0 for cpd in virtual_evidence}
-            return self.query(
+            result = self.query(
                 variables=variables,
                 evidence={**evidence, **virt_evidence},
                 virtual_evidence=None,
@@ -317,6 +318,9 @@ class VariableElimination(Inference):
                 joint=joint,
                 show_progress=show_progress,
             )
+            # Bind the engine back to the model it was created for.
+            self.__init__(orig_model)
+            return result
 
         # Step 3: Prune the network based on variables and evidence.
         if isinstance(self.model, BayesianNetwork):
@@ -557,15 +561,19 @@ class VariableElimination(Inference):
             )
 
         if isinstance(self.model, BayesianNetwork) and (virtual_evidence is not None):
+            orig_model = self.model
             self._virtual_evidence(virtual_evidence)
             virt_evidence = {"__" + cpd.variables[0]: 0 for cpd in virtual_evidence}
-            return self.map_query(
+            result = self.map_query(
                 variables=variables,
                 evidence={**evidence, **virt_evidence},
                 virtual_evidence=None,
                 elimination_order=elimination_order,
                 show_progress=show_progress,
             )
+            # Bind the engine back to the model it was created for.
+            self.__init__(orig_model)
+            return result
 
         if isinstance(self.model, BayesianNetwork):
             model_reduced, evidence = self._prune_bayesian_model(variables, evidence)
@@ -1110,15 +1118,19 @@ class BeliefPropagation(Inference):
 
         # Step 2: If virtual_evidence is provided, modify model and evidence.
         if isinstance(self.model, BayesianNetwork) and (virtual_evidence is not None):
+            orig_model = self.model
             self._virtual_evidence(virtual_evidence)
             virt_evidence = {"__" + cpd.variables[0]: 0 for cpd in virtual_evidence}
-            return self.query(
+            result = self.query(
                 variables=variables,
                 evidence={**evidence, **virt_evidence},
                 virtual_evidence=None,
                 joint=joint,
                 show_progress=show_progress,
             )
+            # Bind the engine back to the model it was created for.
+            self.__init__(orig_model)
+            return result
 
         # Step 3: Do network pruning.
         if isinstance(self.model, BayesianNetwork):
@@ -1209,14 +1221,18 @@ class BeliefPropagation(Inference):
         orig_model = self.model.copy()
 
         if isinstance(self.model, BayesianNetwork) and (virtual_evidence is not None):
+            orig_model = self.model
             self._virtual_evidence(virtual_evidence)
             virt_evidence = {"__" + cpd.variables[0]: 0 for cpd in virtual_evidence}
-            return self.map_query(
+            result = self.map_query(
                 variables=variables,
                 evidence={**evidence, **virt_evidence},
                 virtual_evidence=None,
                 show_progress=show_progress,
             )
+            # Bind the engine back to the model it was created for.
+            self.__init__(orig_model)
+            return result
 
         if isinstance(self.model, BayesianNetwork):
             self.model, evidence = self._prune_bayesian_model(variables, evidence)
